@@ -97,8 +97,9 @@ def md_reference(seq):
                     if not cmd_at:
                         return "error-or-none"       # expectations without command: an error, or no test
                     first = cmd_at[0]
-                    if code[0] != first:
-                        return "error-or-none"       # output before the command
+                    # lines before the command (blank / output lines): the statement does not say where they belong, but the block
+                    # still "contains a `$` command": one test, with the written command; only these lines are left open
+                    pre = code[:code.index(first)]
                     cmd = [first]
                     p = code.index(first) + 1
                     while p < len(code) and seq[code[p]] == "G":
@@ -119,7 +120,7 @@ def md_reference(seq):
                         title = None
                     else:
                         title = "skip"
-                    tests.append({"cmd": cmd, "exps": exps, "exit": exit_code, "line": first + 1, "title": title})
+                    tests.append({"cmd": cmd, "exps": exps, "exit": exit_code, "line": first + 1, "title": title, "pre": pre})
                     tests_since_title += 1
             run_open = False
             i = j + 1 if j < n else n
@@ -212,13 +213,18 @@ def md_post(ctx, args, kind, value):
         ln = field_of(got, "line_number")
         conds.append(ln.concrete and ln.v == w["line"])
         ec = field_of(got, "exit_code")
-        if w["exit"] is None:
+        pre_has_code = any(seq[x] == "R" for x in w["pre"])
+        if pre_has_code:
+            pass                 # an exit-code line before the command: left open
+        elif w["exit"] is None:
             conds.append(ec.variant == "None")
         else:
             conds.append(ec.variant == "Some" and ec.fields[0].concrete and ec.fields[0].v == w["exit"])
         exps = as_items(field_of(got, "expectations"))
-        if len(exps) != len(w["exps"]):
+        extra = len(exps) - len(w["exps"])
+        if extra < 0 or extra > len(w["pre"]):
             return False
+        exps = exps[extra:]       # lines written before the command may or may not be kept as leading expectations
         for e, idx in zip(exps, w["exps"]):
             orig = list(as_str(e.fields[3]).chars)      # the line as written
             conds.append(same(orig, ctx.notes["lines"][idx]))
@@ -266,10 +272,12 @@ def md_judge_native(doc_lines_seq, nv):
             return ("parse:shell-expression", "document %r: shell expression %r, written %r" % (lines, got["shell_expression"], cmd))
         if got["line_number"] != w["line"]:
             return ("parse:line-number", "document %r: line number %d, the `$` line is line %d" % (lines, got["line_number"], w["line"]))
-        if got["exit_code"] != w["exit"]:
+        if got["exit_code"] != w["exit"] and not any(seq[x] == "R" for x in w["pre"]):
             return ("parse:exit-code", "document %r: exit code %r, written %r" % (lines, got["exit_code"], w["exit"]))
-        if got["expectations"] != [lines[i] for i in w["exps"]]:
-            return ("parse:expectations", "document %r: expectations %r, written %r" % (lines, got["expectations"], [lines[i] for i in w["exps"]]))
+        extra = len(got["expectations"]) - len(w["exps"])
+        if extra < 0 or extra > len(w["pre"]) or got["expectations"][extra:] != [lines[i] for i in w["exps"]]:
+            return ("parse:expectations", "document %r: expectations %r, written after the command %r (%d line(s) before it)"
+                    % (lines, got["expectations"], [lines[i] for i in w["exps"]], len(w["pre"])))
         if w["title"] != "skip":
             t = "" if w["title"] is None else (lines[w["title"]][2:] if seq[w["title"]] == "H" else lines[w["title"]])
             if got["title"] != t:
@@ -569,9 +577,10 @@ def md_blocks(seq):
     return out
 
 
-def md_update_expected(seq):
+def md_update_expected(seq, moved=False):
     """what `update` with all-passing outcomes must produce, as a list of items ('orig', line idx) | ('text', str), or None where the
-    statement leaves it open (exit-code line not last, blocks without a command, bare fences …)"""
+    statement leaves it open (exit-code line not last, blocks without a command, bare fences …).
+    moved=True: the variant in which lines written before a block's command come out after it (a recorded finding)"""
     ref = md_reference(seq)
     if not isinstance(ref, list):
         return None
@@ -594,7 +603,10 @@ def md_update_expected(seq):
                 return None          # exit-code line is re-emitted last: only prescribed when it was written last
             items.append(("orig", open_i))
             items += [("orig", x) for x in comments]
-            items += [("orig", x) for x in code]
+            if moved and t["pre"]:
+                items += [("orig", x) for x in t["cmd"]] + [("orig", x) for x in t["pre"]] + [("orig", x) for x in code if x not in t["cmd"] and x not in t["pre"]]
+            else:
+                items += [("orig", x) for x in code]
             items.append(("text", "```"))
     return items
 
@@ -678,7 +690,9 @@ def replay_update(rep, nat, h, res):
         want = "".join((lines[x] if k == "orig" else x) + "\n" for k, x in exp)
         if nv.get("updated") != want:
             trunc = nv.get("updated") is not None and len(nv["updated"]) < len(want)
-            rep.violation("update:%s" % ("truncated" if trunc else "changed-passing-document"),
+            alt = md_update_expected(seq, moved=True)
+            alt_text = "".join((lines[x] if k == "orig" else x) + "\n" for k, x in alt) if alt and nv.get("tests") != 0 else None
+            rep.violation("update:%s" % ("truncated" if trunc else "lines-before-command-moved-after-it" if nv.get("updated") == alt_text else "changed-passing-document"),
                           "updating %r with all tests passing yields %r instead of %r" % (doc, nv.get("updated", nv), want),
                           {"kind": "eval", "fn": "markdown_update", "args": [doc, ["s"]], "native": [nk, nv], "harness": h.name})
         else:
